@@ -19,27 +19,27 @@ CONSTANTS DStyle, AStyle, MaxLen, Design, Extra   \* Design: "ok" | "top_only" |
 VARIABLES results
 mvars == <<hooks, hist, last, results>>
 
-DCls == [meta |-> StyleMeta[DStyle], extends |-> "", pyname |-> "",
+DCls == [meta |-> StyleMeta[DStyle], extends |-> "", pyname |-> "", where |-> "module",
          fields |-> <<Fld(PyName("D", DStyle, 1), WireName("D", DStyle, 1), LeafT("int"), TRUE),
                       Fld(PyName("D", DStyle, 2), WireName("D", DStyle, 2), LeafT("str"), FALSE)>>]
-ACls == [meta |-> StyleMeta[AStyle], extends |-> "", pyname |-> "",
+ACls == [meta |-> StyleMeta[AStyle], extends |-> "", pyname |-> "", where |-> "module",
          fields |-> <<Fld(PyName("A", AStyle, 1), WireName("A", AStyle, 1), ClsT("D"), TRUE)>>]
-BCls == [meta |-> StyleMeta[AStyle], extends |-> "", pyname |-> "",
+BCls == [meta |-> StyleMeta[AStyle], extends |-> "", pyname |-> "", where |-> "module",
          fields |-> <<Fld(PyName("A", AStyle, 2), WireName("A", AStyle, 2), ListT(ClsT("D")), FALSE),
                       Fld(PyName("A", AStyle, 3), WireName("A", AStyle, 3), LeafT("int"), TRUE)>>]
 \* "twin": Dx is a DIFFERENT class that shares D's python name (other keys, other field set)
 TwinStyle == IF DStyle = "kw" THEN "camel" ELSE "kw"
-DxCls == [meta |-> StyleMeta[TwinStyle], extends |-> "", pyname |-> "D",
+DxCls == [meta |-> StyleMeta[TwinStyle], extends |-> "", pyname |-> "D", where |-> "module",
           fields |-> <<Fld(PyName("D", TwinStyle, 1), WireName("D", TwinStyle, 1), LeafT("int"), TRUE),
                        Fld(PyName("D", TwinStyle, 3), WireName("D", TwinStyle, 3), LeafT("date"), FALSE)>>]
 \* "hier": a class hierarchy H <- Hs (extended Meta, one more mapped field), H <- Ht (sibling: own Meta, overrides
 \* H's second field); calls on the base, the subclass and the sibling in every order.  "nobase": leave out A/B/D calls
-HCls  == [meta |-> StyleMeta[AStyle], extends |-> "", pyname |-> "",
+HCls  == [meta |-> StyleMeta[AStyle], extends |-> "", pyname |-> "", where |-> "module",
           fields |-> <<Fld(PyName("A", AStyle, 1), WireName("A", AStyle, 1), LeafT("str"), TRUE),
                        Fld(PyName("A", AStyle, 2), WireName("A", AStyle, 2), LeafT("int"), FALSE)>>]
-HsCls == [meta |-> "extend", extends |-> "H", pyname |-> "", mixin |-> FALSE,
+HsCls == [meta |-> "extend", extends |-> "H", pyname |-> "", where |-> "module", mixin |-> FALSE,
           fields |-> <<Fld(PyName("E", "camel", 1), WireName("E", "camel", 1), LeafT("date"), FALSE)>>]
-HtCls == [meta |-> "own", extends |-> "H", pyname |-> "", mixin |-> TRUE,
+HtCls == [meta |-> "own", extends |-> "H", pyname |-> "", where |-> "module", mixin |-> TRUE,
           fields |-> <<Fld(PyName("E", "kw", 1), WireName("E", "kw", 1), LeafT("bool"), FALSE),
                        Fld(PyName("A", AStyle, 2), WireName("A", AStyle, 2), LeafT("str"), FALSE)>>]
 MCcl == [n \in {"A", "B", "D"} \cup (IF "twin" \in Extra THEN {"Dx"} ELSE {}) \cup (IF "hier" \in Extra THEN {"H", "Hs", "Ht"} ELSE {}) |->
@@ -65,7 +65,7 @@ Calls0 == (IF "nobase" \in Extra THEN <<>>
 MCCalls == [i \in 1..Len(Calls0) |-> [id |-> i, op |-> Calls0[i].op, ty |-> Calls0[i].ty, arg |-> Calls0[i].arg]]
 CallSet == {MCCalls[i] : i \in 1..Len(MCCalls)}
 
-ASSUME PrintT("SCEN " \o ToJson([classes |-> WithBuild(MCcl), calls |-> MCCalls]))
+ASSUME PrintT("SCEN " \o ToJson([classes |-> WithBuild(MCcl), qualnames |-> [n \in DOMAIN MCcl |-> QualName(MCcl, n)], calls |-> MCCalls]))
 
 Init == RegInit /\ results = <<>>
 EmitWhenComplete == Len(hist') = MaxLen => PrintT("HIST " \o ToJson([h |-> hist', exp |-> results']))
